@@ -187,6 +187,39 @@ def opSolve (j : Json) : Except String Json := do
                     ("todo", jnat todo.length), ("isolated", jnats idx),
                     ("pairing_ok", Json.bool pairingOK), ("chains_ok", Json.arr (chains.map Json.bool).toArray)])
 
+
+/-! ### C12: cutting, deleting, relabelling -/
+
+def jlat (L : Lat) : List (String × Json) :=
+  [("nV", jnat L.nV), ("edges", jlist jpairN L.edges), ("cross", jlist jpairI L.cross), ("pos", jlist jpairI L.pos)]
+
+def opSurgery (j : Json) : Except String Json := do
+  let L ← parseLat j
+  let kind ← str (← field j "kind")
+  match kind with
+  | "cut" => do
+    let bx ← bool (← field j "bx"); let bY ← bool (← field j "by")
+    pure (Json.mkObj (jlat (Surgery.cut L bx bY)))
+  | "remove" => do
+    let idx ← nats (← field j "idx")
+    if idx.any (· ≥ L.nV) then throw "precondition:index-out-of-range"
+    pure (Json.mkObj (jlat (Surgery.removeVertices L idx) ++ [("removed_edges", jnats (Surgery.removedEdges L idx))]))
+  | "trailing" => do
+    let r := Surgery.trailing L
+    let removedV := Surgery.danglingRounds L.nV (L.E + 1) L.edges []
+    let rm : Nat → Bool := fun v => removedV.contains v
+    let coreE := (Surgery.core L.E L.edges).map fun e => (Surgery.newIndex rm e.1, Surgery.newIndex rm e.2)
+    pure (Json.mkObj (jlat r ++ [("core_agrees", Json.bool (coreE == r.edges)), ("removed_vertices", jnats removedV)]))
+  | "permute" => do
+    let o ← nats (← field j "ordering")
+    if !Surgery.isPerm L.nV o then throw "precondition:not-a-permutation"
+    pure (Json.mkObj (jlat (Surgery.permute L o)))
+  | "reorder" => do
+    let o ← nats (← field j "ordering")
+    if !Surgery.isPerm L.nV o then throw "precondition:not-a-permutation"
+    pure (Json.mkObj (jlat (Surgery.reorder L o)))
+  | _ => throw "bad-kind"
+
 def dispatch (op : String) (j : Json) : Except String Json :=
   match op with
   | "plaquettes" => opPlaquettes j
@@ -195,6 +228,7 @@ def dispatch (op : String) (j : Json) : Except String Json :=
   | "cnf" => opCnf j
   | "tree" => opTree j
   | "solve" => opSolve j
+  | "surgery" => opSurgery j
   | _ => throw "bad-op"
 
 def handle (line : String) : String :=
